@@ -35,3 +35,12 @@ pub proof fn lemma_utf8_injective(a: Seq<char>, b: Seq<char>)
     vstd::utf8::encode_utf8_decode_utf8(a);
     vstd::utf8::encode_utf8_decode_utf8(b);
 }
+// the String whose UTF-8 encoding is `raw` (meaningful when valid_utf8(raw))
+pub open spec fn string_of_utf8(raw: Seq<u8>) -> String { choose|s: String| vstd::utf8::encode_utf8(s@) == raw }
+pub proof fn lemma_string_of_utf8(s: String)
+    ensures string_of_utf8(vstd::utf8::encode_utf8(s@)) == s,
+{
+    let s1 = string_of_utf8(vstd::utf8::encode_utf8(s@));
+    lemma_utf8_injective(s@, s1@);
+    axiom_string_ext(s, s1);
+}
